@@ -201,6 +201,51 @@ fn adaptive(b: u64, variant: &str, seed: u64) -> Value {
         "routing_table_size":s.routing_table.size,"samples":samples})
 }
 
+/// (d') an adaptive node whose address was confirmed is later told another port of the same IP (NAT rebinding or a
+/// wrong vote) at which it is not reachable: the confirmation must not carry over.
+fn revote(b: u64, seed: u64) -> Value {
+    use std::cell::RefCell;
+    use std::rc::Rc;
+    let mut sim = Sim::new(seed, NetCfg { lat_min_ms: 5, lat_max_ms: 20, ..Default::default() });
+    sim.record = true;
+    let ids: Vec<[u8; 20]> = (0..5).map(|i| crypto::sha1(&[i as u8, 71])).collect();
+    let ip = public_ip(33);
+    let wrong = SocketAddrV4::new(ip, 7777);
+    let vote_wrong = Rc::new(RefCell::new(false));
+    let vw = vote_wrong.clone();
+    let policy: Policy = Box::new(move |me, m, w| {
+        let q = m.q.clone().unwrap_or_default();
+        if *vw.borrow() && (q == "find_node" || q == "get") {
+            let s_nodes: Vec<u8> = vec![];
+            let mut r = B::dict();
+            r.set("nodes", B::bytes(&s_nodes));
+            return Reply::One(krpc::response(&m.tid, &me.id, r, Some(&wrong)), 5);
+        }
+        let _ = w;
+        Reply::Default
+    });
+    let net = FakeNet::install(&mut sim, &ids, policy);
+    let a = sim.add_node(NodeOpts::client(ip, &net.bootstrap()));
+    let aaddr = sim.nodes[a].addr;
+    sim.run_for(120_000);
+    let s1 = sim.snapshot(a).expect("snap");
+    // minute 2: the confirmed state; now every peer reports the other port
+    *vote_wrong.borrow_mut() = true;
+    let mut call = sim.call_get(a, GetKind::FindNode, [3u8; 20], "f");
+    sim.poke(a);
+    sim.run_calls(&mut [&mut call], 30_000);
+    sim.run_for(5000);
+    let s2 = sim.snapshot(a).expect("snap");
+    // until after the 15-minute refresh
+    sim.run_for(17 * 60_000);
+    let s3 = sim.snapshot(a).expect("snap");
+    let pinged_wrong = sim.log.iter().any(|r| r.from == aaddr && r.to == wrong && r.msg.as_ref().map(|m| m.q.as_deref() == Some("ping")).unwrap_or(false));
+    json!({"e":"revote","b":b,"confirmed_first": !s1.firewalled && s1.public_address == Some(aaddr.to_string()),
+        "address_after_revote": s2.public_address, "wrong_address": wrong.to_string(),
+        "firewalled_after_revote": s2.firewalled, "pinged_wrong_address": pinged_wrong,
+        "server_mode_after_refresh": s3.server_mode, "firewalled_after_refresh": s3.firewalled, "address_after_refresh": s3.public_address})
+}
+
 fn explicit(b: u64, seed: u64) -> Value {
     let mut sim = Sim::new(seed, NetCfg::default());
     let ip = public_ip(5);
@@ -240,6 +285,10 @@ pub fn run(args: &Args) -> i32 {
     }
     out.line(&explicit(b, seed));
     b += 1;
+    for i in 0..(if thorough { 4 } else { 1 }) {
+        out.line(&revote(b, seed ^ (i * 7 + 3)));
+        b += 1;
+    }
     out.finish();
     if let Some(p) = args.get("summary") {
         crate::util::write_json(p, &json!({"runs": b, "distinct_nontrivial": b, "samples": []}));
